@@ -70,6 +70,7 @@ type c09World struct {
 	nextGhost      int
 	fmu            sync.Mutex // guards fatal inside the concurrent phases
 	gate           *c09Gate
+	afterClose     map[[2]int]int // slots allocated by writes after the local Close and not flushed since
 	racy           bool
 }
 
@@ -272,6 +273,77 @@ func (w *c09World) drained(e int) bool {
 	return c09Wait(func() bool { return q.size() == 0 && !q.consumerIsWorking() }, c09WaitBound)
 }
 
+// the owner keeps using its stream after Close(): WriteBytes / Reserve on the BufferWriter of a stream that is
+// closed locally (for the server only while no new object has been accepted for the id: the harness' pointer
+// and the model's record must be the same object)
+func (w *c09World) closedObject(e, sid int) *Stream {
+	if !w.closed[[2]int{e, sid}] {
+		return nil
+	}
+	s := w.streams[sid][e]
+	if s == nil || s.getStreamState() != uint32(streamClosed) {
+		return nil
+	}
+	if e == 1 && w.server.getStreamById(uint32(sid)) != nil {
+		return nil
+	}
+	return s
+}
+
+func (w *c09World) opWriteClosed(c *c09Case, e, sid, n int, reserve bool) {
+	if w.fatal != "" {
+		return
+	}
+	s := w.closedObject(e, sid)
+	if s == nil {
+		return
+	}
+	before := map[int]bool{}
+	for _, x := range sliceIDs(w, s.sendBuf) {
+		before[x] = true
+	}
+	var err error
+	if reserve {
+		_, err = s.BufferWriter().Reserve(n)
+	} else {
+		_, err = s.BufferWriter().WriteBytes(make([]byte, n))
+	}
+	var nw []int
+	for _, x := range sliceIDs(w, s.sendBuf) {
+		if !before[x] {
+			nw = append(nw, x)
+		}
+	}
+	heap := 0
+	if !s.sendBuf.isFromShareMemory() {
+		heap = 1
+	}
+	es := ""
+	if err != nil {
+		es = err.Error()
+	}
+	w.afterClose[[2]int{e, sid}] += len(nw)
+	w.feat["write-after-close"] = true
+	if reserve {
+		w.feat["reserve-after-close"] = true
+	}
+	w.rec(c, c09Op{Op: "write", E: e, Sid: sid, Slots: nw, N: n, Heap: heap, Err: es})
+}
+
+// ReleaseReadAndReuse called on a closed stream (no reset: the pool would have refused it)
+func (w *c09World) opReuseClosed(c *c09Case, e, sid int) {
+	if w.fatal != "" {
+		return
+	}
+	s := w.closedObject(e, sid)
+	if s == nil {
+		return
+	}
+	s.ReleaseReadAndReuse()
+	w.feat["reuse-after-close"] = true
+	w.rec(c, c09Op{Op: "reuse", E: e, Sid: sid})
+}
+
 // barrier: everything endpoint e has sent so far (queue elements, socket events) has been handled COMPLETELY by
 // the peer's event loop.  The loop is one goroutine and the socket is FIFO, so once a polling event written now
 // has been handled (recvPollingEventCount went up and the working flag is down again) every earlier event is done.
@@ -324,6 +396,10 @@ func (w *c09World) opFlush(c *c09Case, e, sid int) {
 	es := ""
 	if err != nil {
 		es = err.Error()
+	}
+	if had && w.closedObject(e, sid) == s {
+		delete(w.afterClose, [2]int{e, sid})
+		w.feat["flush-after-close"] = true
 	}
 	switch {
 	case had && !wasOpen:
@@ -947,10 +1023,26 @@ func c09History(w *c09World, r *vrand, c *c09Case, nops int) {
 			}
 			w.opInject(c, r.chance(50), sid, 1+r.intn(4000))
 		default:
-			if r.chance(50) {
+			switch r.intn(4) {
+			case 0:
 				w.opWake(c, r.intn(2))
-			} else {
+			case 1:
 				w.phaseConcurrent(c, r)
+			default:
+				// the owner keeps using a stream it has closed
+				if e, sid, ok := pickStream(); ok && w.closedObject(e, sid) != nil {
+					switch r.intn(4) {
+					case 0:
+						w.opReuseClosed(c, e, sid)
+					case 1:
+						w.opWriteClosed(c, e, sid, 1+r.intn(5000), true)
+					default:
+						w.opWriteClosed(c, e, sid, sizes[r.intn(len(sizes))], false)
+					}
+					if r.chance(40) {
+						w.opFlush(c, e, sid)
+					}
+				}
 			}
 		}
 	}
@@ -997,6 +1089,25 @@ func c09Directed(w *c09World, c *c09Case, which int) {
 		w.opClose(c, 0, sid)
 	case 2:
 		w.lateDataScenario(c)
+	case 3: // the owner writes after its Close: with and without a later Flush, Reserve, ReleaseReadAndReuse, either end
+		a := w.opOpen(c)
+		w.opWrite(c, 0, a, 100, false)
+		w.opFlush(c, 0, a)
+		w.opClose(c, 0, a)
+		w.opWriteClosed(c, 0, a, 5000, false) // never flushed
+		w.opWriteClosed(c, 0, a, 100, true)
+		w.opReuseClosed(c, 0, a)
+		b := w.opOpen(c)
+		w.opClose(c, 0, b)
+		w.opWriteClosed(c, 0, b, 3000, false)
+		w.opFlush(c, 0, b) // ErrStreamClosed: recycles
+		w.opClose(c, 1, a) // the server side of a, then a write after close there too
+		w.opWriteClosed(c, 1, a, 2000, false)
+		d := w.opOpen(c) // closed by the peer only: a later local Close cleans up
+		w.opWrite(c, 0, d, 10, false)
+		w.opFlush(c, 0, d)
+		w.opClose(c, 1, d)
+		w.opWrite(c, 0, d, 4000, false)
 	}
 }
 
@@ -1069,7 +1180,13 @@ func (w *c09World) finish(c *c09Case) {
 		total += x
 	}
 	if smm.AllInUsedShareMemoryInBytes != 0 || smm2.AllInUsedShareMemoryInBytes != 0 || total != 0 {
-		if w.pinnedAtClose == total && total > 0 {
+		ac := 0
+		for _, n := range w.afterClose {
+			ac += n
+		}
+		if ac == total && total > 0 {
+			w.oracle = append(w.oracle, fmt.Sprintf("C09:write-after-Close-allocates-shared-memory-never-recycled|all streams closed on both ends, harness slots returned, yet %d slot(s) = %d bytes stay in use: exactly the slice(s) that WriteBytes / Reserve allocated for a stream AFTER its Close() (the calls succeeded; no Flush followed, and nothing else ever recycles the send buffer of a closed stream)", total, smm.AllInUsedShareMemoryInBytes))
+		} else if w.pinnedAtClose == total && total > 0 {
 			w.oracle = append(w.oracle, fmt.Sprintf("C09:pinned-slices-not-recycled-by-Close|all streams closed on both ends, harness slots returned, yet %d slot(s) = %d bytes stay in use: exactly the %d slice(s) that sat in a pinned list (ReadBytes without ReleasePreviousRead) when their stream was closed", total, smm.AllInUsedShareMemoryInBytes, w.pinnedAtClose))
 		} else {
 			w.oracle = append(w.oracle, fmt.Sprintf("C09:shared-memory-in-use-after-all-streams-closed|all streams closed on both ends, harness slots returned, yet %d slot(s) = %d bytes stay in use (per class %v; %d were pinned at Close)", total, smm.AllInUsedShareMemoryInBytes, w.inuse(), w.pinnedAtClose))
@@ -1105,7 +1222,7 @@ func c09RunJob(id, attempt, sub, qcap int, seed uint64, nops int) (c c09Case, fa
 		sv.Close()
 	}()
 	w := &c09World{client: cl, server: sv, bm: cl.bufferManager, streams: map[int][2]*Stream{},
-		closed: map[[2]int]bool{}, feat: map[string]bool{}}
+		closed: map[[2]int]bool{}, feat: map[string]bool{}, afterClose: map[[2]int]int{}}
 	b := 0
 	for _, l := range w.bm.lists {
 		w.base = append(w.base, b)
@@ -1140,9 +1257,9 @@ func TestVerif_C09(t *testing.T) {
 		seed    uint64
 	}
 	var jobs []job
-	jobs = append(jobs, job{0, 0, 8, 0}, job{1, 1, 2, 0}, job{2, 2, 8, 0})
+	jobs = append(jobs, job{0, 0, 8, 0}, job{1, 1, 2, 0}, job{2, 2, 8, 0}, job{3, 3, 8, 0})
 	for k := 0; k < n; k++ {
-		jobs = append(jobs, job{3 + k, -1, []int{2, 3, 4, 8}[r.intn(4)], r.u64()})
+		jobs = append(jobs, job{4 + k, -1, []int{2, 3, 4, 8}[r.intn(4)], r.u64()})
 	}
 	results := make([]c09Case, len(jobs))
 	sem := make(chan struct{}, 8)
